@@ -45,7 +45,11 @@ func tokVal(t int64) float64 {
 	if t == sentinelTok {
 		return math.MaxFloat64
 	}
-	return float64(t) / grid
+	f := float64(t)
+	if f >= 1<<63 || int64(f) != t {
+		panic("generator: amount is not a float64 value")
+	}
+	return f / grid
 }
 
 func decRes(r *tokReader) *api.Resource {
@@ -64,8 +68,11 @@ func decRes(r *tokReader) *api.Resource {
 }
 
 func toUnits(x float64) int64 {
+	if x == math.MaxFloat64 {
+		return sentinelTok
+	}
 	y := x * grid
-	if y != math.Trunc(y) || math.Abs(y) > 1<<62 {
+	if y != math.Trunc(y) || y >= 1<<63 || y < -(1<<63) {
 		panic(fmt.Sprintf("value %v left the grid", x))
 	}
 	return int64(y)
@@ -498,6 +505,7 @@ func laws(sel int, in, got []int64, law func(lsel int, lin []int64, sig string))
 		mx.SetMaxResource(rr)
 		mn := r.Clone().MinDimensionResource(rr, api.Zero)
 		law(113, cat(encRes(r), encRes(rr), encRes(mx), encRes(mn)), "")
+		law(117, cat(encRes(r), encRes(rr), encRes(r.Clone().MinDimensionResource(rr, api.Infinity))), "")
 		{
 			panicked := false
 			func() {
